@@ -5,6 +5,7 @@ import Atto.Driver.ProxyOp
 import Atto.Driver.MpOp
 import Atto.Driver.SessOp
 import Atto.Driver.CharsetOp
+import Atto.Driver.HappyOp
 namespace Atto.Driver
 open Atto
 
@@ -45,6 +46,8 @@ def runLine (line : String) : String :=
   | "mpart" :: args => opMpart args
   | "sess" :: args => opSess args
   | "charset" :: args => opCharset args
+  | "happy" :: args => opHappy args
+  | "twine" :: args => opTwine args
   | "penv" :: args => opPenv args
   | _ => "bad-op"
 
